@@ -92,6 +92,9 @@ var specs = map[string]*propSpec{
 			"a fault (SIGSEGV) in a harness goroutine becomes a panic (SetPanicOnFault) and is reported; elsewhere it kills the child and is reported after a confirming re-run",
 		},
 		ExpectProbes: []string{"concurrent_phases", "fragmentation_burst", "defrag_moved_records", "defrag_passes_noop", "readers_during_defrag", "handover"},
+		// the allocator under its real client: lib/utxo records of a node processing forks and reorganisations
+		// live in it (Malloc/Free from commit, undo, snapshot load, DefragAllImproved + UnspentDB.Relocate)
+		Also: []alsoSpec{{Harness: "chainsim", Chunk: 6, QuickRuns: 120, QuickBudgetS: 40, ThoroughRuns: 6000, ThoroughBudgetS: 600}},
 	},
 	"C06": chainSpec("C06", "exploration"),
 	"C04": chainSpec("C04", "exploration"),
